@@ -634,6 +634,40 @@ Section ResumeProofs.
     destruct (step_obs regs ms a) as [_ [_ [_ [_ [_ Hu]]]]]. rewrite (Hu G). unfold recalled. rewrite F. reflexivity.
   Qed.
 
+  Definition selects_resume (regs : list rs_hdecl) (b : rs_in K) (h : rs_hdecl) (o : rs_obs) : Prop :=
+    ob_initial0 o = true /\ ob_initial o = true /\
+    ob_reason o = (if vw_deleting (in_view b) then RsDelete else if vw_diff_empty (in_view b) then RsResume else RsUpdate) /\
+    exists h', In h' regs /\ hd_fn h' = hd_fn h /\ hd_id h' = hd_id h /\ In (hd_ix h') (ob_selected o) /\
+               (rs_awakened b (hd_id h) = true -> In (hd_ix h') (map fst (ob_invoked o))).
+
+  Lemma runs_for_preexisting : forall regs pre b h,
+    find (in_key b) (run regs [] pre) = None ->        (* first event of the object in this process *)
+    in_evt b = EListed -> in_gate b = true -> vw_old_none (in_view b) = false ->
+    (vw_deleting (in_view b) = true -> vw_blocked (in_view b) = true /\ rs_ob (hd_deleted h) = true) ->
+    In h regs -> hd_reason h = None -> rs_is_resume_handler h = true -> rs_mem_nat (hd_ix h) (in_match b) = true ->
+    selects_resume regs b h (obs_at regs pre b).
+  Proof.
+    intros regs pre b h F Ev G Ho Hd Hin Hre Hr Hm. unfold selects_resume, obs_at.
+    apply initial_step_selects; try assumption.
+    - apply fresh_listed_initial; assumption.
+    - congruence.
+  Qed.
+
+  Lemma runs_for_preexisting_deferred : forall regs pre a l b h,
+    find (in_key a) (run regs [] pre) = None -> in_evt a = EListed -> in_gate a = false ->
+    in_key a = in_key b -> unreached (in_key b) l ->
+    in_evt b <> EDeleted -> in_gate b = true -> vw_old_none (in_view b) = false ->
+    (vw_deleting (in_view b) = true -> vw_blocked (in_view b) = true /\ rs_ob (hd_deleted h) = true) ->
+    In h regs -> hd_reason h = None -> rs_is_resume_handler h = true -> rs_mem_nat (hd_ix h) (in_match b) = true ->
+    selects_resume regs b h (obs_at regs (pre ++ LEv a :: l) b).
+  Proof.
+    intros regs pre a l b h F Ev Ga Hk Hu Evb G Ho Hd Hin Hre Hr Hm. unfold selects_resume, obs_at.
+    rewrite run_app. simpl.
+    apply initial_step_selects; try assumption.
+    apply armed_initial. apply armed_run; [exact Hu|]. rewrite <- Hk.
+    apply fresh_listed_unreached_arms; assumption.
+  Qed.
+
   (* ---------- at most once ---------- *)
   Notation successes := (rs_successes keqb).
   Notation c02 := (rs_c02_finished_persisted keqb).
@@ -744,8 +778,8 @@ Section ResumeProofs.
           rewrite <- So, <- Sm in Hinv'. rewrite <- So in Hbud.
           specialize (IH ms' epoch (rs_phase_next keqb k (hd_ix h) phase i o) false Hu2 Hc2 Hinv' e).
           rewrite <- Xs in IH. rewrite andb_true_r.
-          eapply Nat.le_trans; [|apply (bound_add e epoch _ _ _ Hbud)].
-          destruct (Nat.eqb epoch e); destruct (rs_succeeded (hd_ix h) o); simpl; lia.
+          pose proof (bound_add e epoch _ _ _ Hbud) as Hb.
+          destruct (Nat.eqb epoch e); destruct (rs_succeeded (hd_ix h) o); simpl in *; lia.
       + (* an event of another object *)
         rewrite andb_false_r. simpl.
         unfold rs_phase_next in Hc2. rewrite Ek in Hc2.
@@ -776,3 +810,96 @@ Section ResumeProofs.
     - apply bound_le_1. simpl. lia.
   Qed.
 End ResumeProofs.
+
+(* ---------- concrete witnesses (keys are uid strings) ---------- *)
+Open Scope string_scope.
+
+Lemma string_eqb_spec : forall a b : string, String.eqb a b = true <-> a = b.
+Proof. intros a b. apply String.eqb_eq. Qed.
+
+Definition ex_view (diff_empty : bool) (prog : list (nat * rs_prog)) : rs_view :=
+  {| vw_old_none := false; vw_diff_empty := diff_empty; vw_deleting := false; vw_blocked := false; vw_prog := prog |}.
+Definition ex_in (k : string) (e : rs_evt) (diff_empty : bool) (prog : list (nat * rs_prog)) (awake : list nat)
+           (out : list (nat * rs_outcome)) : rs_in string :=
+  {| in_key := k; in_evt := e; in_view := ex_view diff_empty prog; in_gate := true; in_match := [0; 1]; in_awake := awake;
+     in_out := out |}.
+
+(* two resume handlers; the second keeps failing temporarily *)
+Definition ex_regs2 : list rs_hdecl := [rs_on_resume 0 0 0 None; rs_on_resume 1 1 1 None].
+
+(* Without the C02 guarantee (the finished record stays on the object while the cycle is open) the statement is false of
+   the model: the record of handler 0 is gone in the second event (lost patch / purge), and it runs to completion again. *)
+Definition ex_lost_record : list (rs_label string) :=
+  [ LEv (ex_in "u" EListed true [] [] [(1, OTemporary)]);
+    LEv (ex_in "u" EModified true [(1, POpen)] [1] [(1, OTemporary)]) ].
+
+Lemma at_most_once_unconditional_refuted :
+  exists regs ls k h,
+    NoDup (map hd_ix regs) /\ In h regs /\ rs_is_resume_handler h = true /\
+    rs_uid_final String.eqb k ls /\
+    rs_successes String.eqb 0 k (hd_ix h) (rs_trace String.eqb regs ls) = 2.
+Proof.
+  exists ex_regs2, ex_lost_record, "u", (rs_on_resume 0 0 0 None).
+  split; [repeat constructor; simpl; intuition discriminate|].
+  split; [left; reflexivity|]. split; [reflexivity|].
+  split; [simpl; repeat split; intros; discriminate|].
+  vm_compute. reflexivity.
+Qed.
+
+(* Non-vacuity: a history with a 410 re-listing in the middle of a retrying resume handler, a second re-listing after the
+   cycle has closed, an edit, and a restart. *)
+Definition ex_regs1 : list rs_hdecl := [rs_on_resume 0 0 0 None; rs_on_reason RsUpdate 1 1 1].
+
+Definition ex_410 : list (rs_label string) :=
+  [ LEv (ex_in "u" EListed true [] [] [(0, OTemporary)]) ]                       (* start: listed; the handler fails, retry later *)
+  ++ [ LEv (ex_in "u" EModified true [(0, POpen)] [] []) ]                       (* own patch echoed; the handler sleeps *)
+  ++ rs_relisting [ ex_in "u" EModified true [(0, POpen)] [] [] ]                (* 410 Gone: listed again, still sleeping *)
+  ++ [ LEv (ex_in "u" EModified true [(0, POpen)] [0] [(0, OSuccess)]) ]         (* retry: success, the cycle closes *)
+  ++ rs_relisting [ ex_in "u" EModified true [] [] [] ]                          (* 410 Gone again *)
+  ++ [ LEv (ex_in "u" EModified false [] [] []) ]                                (* an edit *)
+  ++ [ LRestart ]
+  ++ rs_relisting [ ex_in "u" EModified true [] [] [] ].                         (* the next process resumes it again *)
+
+Definition ex_410_expected : list (nat * rs_reason * bool * list nat * list (nat * rs_outcome) * bool) :=
+  [ (0, RsResume, true,  [0], [(0, OTemporary)], false);
+    (0, RsResume, true,  [0], [],                false);
+    (0, RsResume, true,  [0], [],                false);
+    (0, RsResume, true,  [0], [(0, OSuccess)],   true);
+    (0, RsNoop,   false, [],  [],                true);
+    (0, RsUpdate, false, [1], [(1, OSuccess)],   true);
+    (1, RsResume, true,  [0], [(0, OSuccess)],   true) ].
+
+Definition ex_summary (en : rs_entry string) :=
+  (en_epoch en, ob_reason (en_obs en), ob_initial (en_obs en), ob_selected (en_obs en), ob_invoked (en_obs en),
+   ob_handled_after (en_obs en)).
+
+Lemma ex_410_trace : map ex_summary (rs_trace String.eqb ex_regs1 ex_410) = ex_410_expected.
+Proof. vm_compute. reflexivity. Qed.
+
+Lemma ex_410_hypotheses :
+  NoDup (map hd_ix ex_regs1) /\
+  rs_uid_final String.eqb "u" ex_410 /\
+  rs_c02_finished_persisted String.eqb ex_regs1 "u" 0 0 [] 0 ex_410.
+Proof.
+  split; [repeat constructor; simpl; intuition discriminate|].
+  split.
+  - simpl. repeat split; intros; discriminate.
+  - vm_compute. repeat split; intros; try reflexivity; try discriminate.
+Qed.
+
+Lemma ex_410_counts :
+  rs_successes String.eqb 0 "u" 0 (rs_trace String.eqb ex_regs1 ex_410) = 1 /\
+  rs_successes String.eqb 1 "u" 0 (rs_trace String.eqb ex_regs1 ex_410) = 1.
+Proof. split; vm_compute; reflexivity. Qed.
+
+(* Non-vacuity of the deleting clause: an opted-in resume handler IS selected for a deleting object at first sight,
+   one that did not opt in is not. *)
+Definition ex_regs_del : list rs_hdecl := [rs_on_resume 0 0 0 (Some true); rs_on_resume 1 1 1 None; rs_on_reason RsDelete 2 2 2].
+Definition ex_deleting_in : rs_in string :=
+  {| in_key := "u"; in_evt := EListed;
+     in_view := {| vw_old_none := false; vw_diff_empty := true; vw_deleting := true; vw_blocked := true; vw_prog := [] |};
+     in_gate := true; in_match := [0; 1; 2]; in_awake := []; in_out := [] |}.
+Lemma ex_deleting_selected :
+  let o := snd (rs_step String.eqb ex_regs_del [] ex_deleting_in) in
+  ob_reason o = RsDelete /\ ob_initial o = true /\ ob_selected o = [0; 2].
+Proof. vm_compute. repeat split. Qed.
